@@ -3,7 +3,7 @@
  * usage: mpiexec -n <np> c08_trace <workdir> <casefile> [watchdog-seconds]
  *
  * casefile: one scenario per line
- *     <id> <api> [safe=0|1] [hcoll=0|1] [aggr=0|1] [dup=0|1] [pre=<state>] [mu=<bytes>] cls=<c0>,<c1>,...
+ *     <id> <api> [safe=0|1] [hcoll=0|1] [aggr=0|1] [dup=0|1] [pre=<state>] [mu=<bytes>] [post=abort] cls=<c0>,<c1>,...
  * one class per rank (cls count must equal np).  For every scenario a fresh file <workdir>/<id>.nc
  * is prepared (fixed setup, see setup_file), then the ONE call under test is issued by every
  * rank with the arguments its class prescribes, then the file is brought back to a closable
@@ -128,7 +128,7 @@ int MPI_File_write_at_all(MPI_File fh, MPI_Offset o, const void *b, int n, MPI_D
 /* ------------------------------------------------------------------ scenarios */
 typedef struct {
     char id[96], api[48], pre[32], cls[8][32];
-    int safe, hcoll, aggr, dup, mu, ncls;
+    int safe, hcoll, aggr, dup, mu, ncls, post_abort;
 } Case;
 
 #define XPR 4                  /* elements of x per rank */
@@ -582,10 +582,11 @@ static int prepare(const Case *c, const char *cls)
 }
 
 /* bring the file to a closed state; every call is logged as POST */
-static void cleanup(void)
+static void cleanup(int post_abort)
 {
     int rc;
     g_log = 2; g_phase = "post";
+    if (g_state == 2 && post_abort) { rc = ncmpi_abort(g_ncid); lg("POST abort %d\n", rc); g_state = 3; g_nexp = -1; }
     if (g_state == 2) { rc = ncmpi_enddef(g_ncid); lg("POST enddef %d\n", rc); if (rc == NC_NOERR) g_state = 0; }
     if (g_state == 1) { rc = ncmpi_end_indep_data(g_ncid); lg("POST end_indep %d\n", rc); g_state = 0; }
     if (g_state == 0) {
@@ -607,6 +608,7 @@ static void verify(void)
     rc = ncmpi_open(MPI_COMM_SELF, g_path, NC_NOWRITE, MPI_INFO_NULL, &ncid);
     if (rc != NC_NOERR) { lg("DATA %s open=%d\n", g_nexp > 0 ? "bad" : "none", rc); return; }
     ncmpi_inq_unlimdim(ncid, &unl); if (unl >= 0) ncmpi_inq_dimlen(ncid, unl, &nr);
+    log_layout(ncid, "new");
     ncmpi_begin_indep_data(ncid);
     for (i = 0; i < g_nexp; i++) {
         Expect *e = &g_exp[i]; int got[64], n = 1;
@@ -634,6 +636,7 @@ static int parse_case(char *line, Case *c)
         else if (!strncmp(tok, "dup=", 4)) c->dup = atoi(tok + 4);
         else if (!strncmp(tok, "mu=", 3)) c->mu = atoi(tok + 3);
         else if (!strncmp(tok, "pre=", 4)) snprintf(c->pre, sizeof c->pre, "%s", tok + 4);
+        else if (!strcmp(tok, "post=abort")) c->post_abort = 1;
         else if (!strncmp(tok, "cls=", 4)) {
             char *s2 = NULL, *t2; for (t2 = strtok_r(tok + 4, ",", &s2); t2 && c->ncls < 8; t2 = strtok_r(NULL, ",", &s2))
                 snprintf(c->cls[c->ncls++], 32, "%s", t2);
@@ -675,7 +678,7 @@ int main(int argc, char **argv)
         lg("RET %d %s\n", rc, extra);
         if (rc != NC_NOERR && g_nexp > 0) g_nexp = 0;   /* a rank that got an error expects nothing stored */
         g_phase = "post"; alarm(g_wd);
-        cleanup();
+        cleanup(c.post_abort);
         g_phase = "post-barrier"; alarm(g_wd);
         PMPI_Barrier(MPI_COMM_WORLD);
         alarm(g_wd + 6);
